@@ -96,13 +96,14 @@ class GEl:
 
 
 class Schema:
-    def __init__(self, tns, components, prefixes=None, imports=(), order=None, xs='xs'):
+    def __init__(self, tns, components, prefixes=None, imports=(), order=None, xs='xs', default_ns=None):
         self.tns = tns
         self.components = components
         self.prefixes = prefixes or {}       # prefix -> uri declared on xs:schema
         self.imports = list(imports)         # (namespace, schemaLocation)
         self.order = order                   # Selector over permutations of components (declaration order)
         self.xs = xs
+        self.default_ns = default_ns
 
     # ---------------------------------------------------------- XML tree
     def tree(self):
@@ -116,6 +117,8 @@ class Schema:
         comps = [self._comp(c) for c in self.components]
         nsd = {self.xs: XS}
         nsd.update({k: attr(v) for k, v in self.prefixes.items()})
+        if self.default_ns is not None:
+            nsd[''] = attr(self.default_ns)
         a = {'elementFormDefault': 'qualified'}
         put(a, 'targetNamespace', self.tns)
         if self.order is not None:
